@@ -24,7 +24,8 @@ ASSUMPTIONS = [
     'sort keys of disjoint primitive classes',
     'sort: default/code-point collation only; numeric keys are dyadic rationals so promotion to double is exact',
     'engine-only equivalences are skipped (counted) when the direct call itself raises',
-    'a function item that reaches the top level is compared only as "a function item"',
+    'programs whose result contains a function item or an array are not decided (counted as undecided)',
+    'engine outcomes are memoised per (text, version, api): evaluation builds a new parser and context each time',
 ]
 
 CODEPOINT = 'http://www.w3.org/2005/xpath-functions/collation/codepoint'
@@ -103,7 +104,14 @@ PRIORITY = ['closure-multi', 'recursion'] + ['fn:' + h for h in HOFS] + [
     'typed-param', 'dynamic-call', 'inline']
 
 
-def feature_of(features):
+def feature_of(features, mk=None):
+    # fold-left/right mishandle a zero value that is not a singleton: an error for 2+ items, a None item
+    # (or an error) for the empty sequence; those symptoms are attributed to that mechanism first
+    if mk is not None:
+        if 'fold-zero-multi' in features and mk.startswith('err:'):
+            return 'fold-zero-multi'
+        if 'fold-zero-empty' in features and (mk.startswith('err:') or mk in ('value:none-item', 'value:count')):
+            return 'fold-zero-empty'
     for f in PRIORITY:
         if f in features:
             return f
@@ -902,7 +910,8 @@ def g_equiv(r, v):
             j = r.randrange(n)
             fx = ['scall', name, [None if q == j else a for q, a in enumerate(args)]]
             rest = [args[j]]
-        return rel, ['let', 'f', fx, ['seq'] + [['call', ['var', 'f'], rest] for _ in range(k)]], [direct] * k
+        return rel + '-' + how, ['let', 'f', fx, ['seq'] + [['call', ['var', 'f'], rest] for _ in range(k)]], \
+            [direct] * k
     if rel == 'ref-in-hof':
         name, sig, ret = r.choice([s for s in g.sigs if len(s[1]) == 1 and s[1][0] in (I, S)])
         src = g.lit(star(sig[0]))
@@ -1252,9 +1261,17 @@ def report_program(ast, v, api, ip, exp, o, out):
         return
     first = (mismatch_kind(o, exp), ip.features, exp, o)
     small, (mk, feats, exp2, o2) = minimise(ast, v, api, first)
-    out.fail('C16/%s/%s' % (feature_of(feats), mk),
+    feat = feature_of(feats, mk)
+    if feat.startswith('fold-zero') and mk.startswith('err:'):
+        mk = 'error'      # XPTY0004 directly, FOAP0001 / FORG0006 ... when wrapped by an enclosing call
+    out.fail('C16/%s/%s' % (feat, mk),
              {'expr': render(small), 'expected': exp2, 'got': list(o2), 'features': sorted(feats),
               'original': text[:400]})
+
+
+REL_FEATURE = {'partial-chain': 'partial-chained', 'partial-inline': 'partial-dynamic', 'ref-in-hof': 'named-ref',
+               'repeat-ref': 'named-ref', 'repeat-partial': 'partial-static'}
+REL_FEATURE.update(('expand:' + h, 'fn:' + h) for h in HOFS)
 
 
 def check_equiv(case, out):
@@ -1280,7 +1297,16 @@ def check_equiv(case, out):
             # the model covers the indirect side: classify by the features of the reduced program
             report_program(case['lhs'], v, api, m[1], m[0], o, out)
         else:
-            out.fail('C16/equiv/%s/%s' % (rel, mismatch_kind(o, exp)),
+            feat, mk = REL_FEATURE.get(rel, rel), mismatch_kind(o, exp)
+            if rel.startswith('expand:fold') and mk.startswith('err:'):
+                try:
+                    zero = case['lhs'][3][2][1]
+                    n = len(zero) - 1 if zero[0] == 'seq' else 1
+                    if n != 1:
+                        feat, mk = ('fold-zero-multi' if n > 1 else 'fold-zero-empty'), 'error'
+                except (IndexError, TypeError):
+                    pass
+            out.fail('C16/%s/%s' % (feat, mk),
                      {'lhs': lt, 'rhs': rts, 'expected': exp, 'got': list(o)})
     # the direct side against the model, when the model covers it
     r_ast, rt = case['rhs'][0], rts[0]
@@ -1333,7 +1359,7 @@ def shrink(kind, case):
 def run(h):
     r = h.rng
     apis = ['select', 'evaluate']
-    for i in range(h.n(1500)):
+    for i in range(h.n(1200)):
         v = '3.0' if i % 2 else '3.1'
         tmpl, prog = g_closure(r, v)
         h.case('closure', {'v': v, 'api': apis[(i // 2) % 2], 'tmpl': tmpl, 'prog': prog})
@@ -1344,7 +1370,7 @@ def run(h):
         v = '3.0' if i % 2 else '3.1'
         rel, lhs, rhs = g_equiv(r, v)
         h.case('equiv', {'v': v, 'api': apis[(i // 2) % 2], 'rel': rel, 'lhs': lhs, 'rhs': rhs})
-    for i in range(h.n(2000)):
+    for i in range(h.n(1600)):
         h.case('sort', g_sort(r))
 
 
